@@ -44,7 +44,7 @@ def relevant(hyps, axioms, goal, depth):
     for _ in range(depth):
         new = set()
         for i, h in enumerate(hyps):
-            if not chosen_h[i] and symbols(h) & syms:
+            if not chosen_h[i] and not z3.is_quantifier(h) and symbols(h) & syms:
                 chosen_h[i] = True
                 new |= symbols(h)
         for i, a in enumerate(axioms):
@@ -77,15 +77,38 @@ def discharge(ob, axioms, timeout_ms=20000, want_model=True):
     """Returns dict(status=proved|refuted|unknown, time, backend, model)."""
     total = 0.0
     hyps = list(ob.hyps)
-    stages = [(1, min(3000, timeout_ms)), (2, min(6000, timeout_ms))]
-    for depth, to in stages:
+    if z3.is_false(ob.goal) and hyps:
+        # "this path is infeasible": the contradiction involves the most recent path condition; use it as the seed of
+        # the relevance closure (hyps[:-1] /\ last ==> False   is   hyps[:-1] ==> not last)
+        class _O:
+            pass
+        o2 = _O()
+        o2.hyps, o2.goal = hyps[:-1], z3.Not(hyps[-1])
+        r = discharge(o2, axioms, timeout_ms, want_model)
+        return r
+    def stage(depth, to):
+        nonlocal total
         hs, ax = relevant(hyps, axioms, ob.goal, depth)
         if len(hs) == len(hyps) and len(ax) == len(axioms):
-            break
+            return None
         r, dt, _ = _check(hs, ax, ob.goal, to)
         total += dt
         if r == z3.unsat:
             return {"status": "proved", "time": total, "backend": f"z3(relevant depth {depth}: {len(hs)}/{len(hyps)} hyps)", "model": None, "reason": ""}
+        return None
+
+    res = stage(1, min(1500, timeout_ms))
+    if res:
+        return res
+    # portfolio: the same query as SMT-LIB text to cvc5 and to the older z3 binary (their sequence solvers succeed on
+    # many queries where z3 5.x gives up, and vice versa); the first `unsat` wins
+    ext = external_portfolio(hyps, axioms, ob.goal, min(timeout_ms, 15000))
+    total += ext["time"]
+    if ext["status"] == "proved":
+        return {"status": "proved", "time": total, "backend": ext["backend"], "model": None, "reason": ""}
+    res = stage(2, min(6000, timeout_ms))
+    if res:
+        return res
     r, dt, s = _check(hyps, axioms, ob.goal, timeout_ms)
     total += dt
     out = {"status": "proved" if r == z3.unsat else ("refuted" if r == z3.sat else "unknown"), "time": total, "backend": "z3",
@@ -103,6 +126,56 @@ def discharge(ob, axioms, timeout_ms=20000, want_model=True):
             out["model"] = s2.model() if want_model else None
             out["candidate"] = True
     return out
+
+
+EXTERNAL = [("cvc5-1.0.3", ["/usr/bin/cvc5", "--strings-exp", "--lang=smt2"], "--tlimit=%d"),
+            ("z3-4.8.12", ["/usr/bin/z3", "-smt2"], "-T:%d")]
+
+
+def external_portfolio(hyps, axioms, goal, timeout_ms):
+    import subprocess, tempfile, os
+    t0 = time.time()
+    s = z3.Solver()
+    for h in hyps:
+        s.add(h)
+    for a in axioms:
+        s.add(a)
+    s.add(z3.Not(goal))
+    try:
+        text = "(set-logic ALL)\n" + s.to_smt2()
+    except Exception as e:
+        return {"status": "unknown", "time": time.time() - t0, "backend": "", "error": str(e)}
+    fd, path = tempfile.mkstemp(suffix=".smt2", prefix="pyvc_")
+    os.write(fd, text.encode())
+    os.close(fd)
+    procs = []
+    try:
+        for name, cmd, tl in EXTERNAL:
+            if not os.path.exists(cmd[0]):
+                continue
+            arg = tl % (timeout_ms if "tlimit" in tl else max(1, timeout_ms // 1000))
+            procs.append((name, subprocess.Popen(cmd + [arg, path], stdout=subprocess.PIPE, stderr=subprocess.DEVNULL, text=True)))
+        deadline = time.time() + timeout_ms / 1000.0 + 2
+        status, backend = "unknown", ""
+        pending = list(procs)
+        while pending and time.time() < deadline and status != "proved":
+            for name, pr in list(pending):
+                if pr.poll() is not None:
+                    out = (pr.stdout.read() or "").strip().split("\n")[0].strip()
+                    pending.remove((name, pr))
+                    if out == "unsat":
+                        status, backend = "proved", name
+                        break
+            time.sleep(0.02)
+        for name, pr in procs:
+            if pr.poll() is None:
+                pr.kill()
+        return {"status": status, "time": time.time() - t0, "backend": backend}
+    finally:
+        try:
+            os.unlink(path)
+        except OSError:
+            pass
 
 
 def hyps_consistent(hyps, axioms, timeout_ms=5000):
